@@ -224,8 +224,16 @@ fn simple_tagged_enum_name(raw_tag: &Option<Cow<'_, str>>, tag: &SfTag) -> Optio
 /// Used by:
 /// - Enum deserialization when a tag on a sequence or mapping selects the variant: the
 ///   container is then replayed as the untagged payload of that variant.
-fn take_container_without_tag<'de>(ev: &mut dyn Events<'de>) -> Result<Vec<Ev<'de>>, Error> {
+///
+/// The second vector holds, for every returned event, where it was referenced (the alias token
+/// for events that arrive through an alias, the event's own position otherwise).
+fn take_container_without_tag<'de>(
+    ev: &mut dyn Events<'de>,
+) -> Result<(Vec<Ev<'de>>, Vec<Location>), Error> {
     let mut events = Vec::new();
+    let mut references = Vec::new();
+    let _ = ev.peek()?;
+    references.push(ev.reference_location());
     match ev.next()? {
         Some(Ev::SeqStart {
             anchor, location, ..
@@ -250,6 +258,8 @@ fn take_container_without_tag<'de>(ev: &mut dyn Events<'de>) -> Result<Vec<Ev<'d
     }
     let mut depth = 1usize;
     while depth > 0 {
+        let _ = ev.peek()?;
+        let reference = ev.reference_location();
         match ev.next()? {
             Some(event) => {
                 match event {
@@ -258,11 +268,12 @@ fn take_container_without_tag<'de>(ev: &mut dyn Events<'de>) -> Result<Vec<Ev<'d
                     Ev::Scalar { .. } | Ev::Taken { .. } => {}
                 }
                 events.push(event);
+                references.push(reference);
             }
             None => return Err(Error::eof().with_location(ev.last_location())),
         }
     }
-    Ok(events)
+    Ok((events, references))
 }
 
 /// Canonical fingerprint of a YAML node for duplicate-key detection.
@@ -921,6 +932,10 @@ struct ReplayEvents<'a> {
     ///   different nested nodes should create nested replay sources (which we do during
     ///   recursive merge expansion).
     ref_override: Option<Location>,
+    /// Use-site of each event of `buf`, for a buffer taken from a place where different
+    /// events were referenced from different positions (some arrived through aliases).
+    /// Empty when the events have no use-site other than their own position.
+    references: Vec<Location>,
 }
 
 impl<'a> ReplayEvents<'a> {
@@ -936,6 +951,18 @@ impl<'a> ReplayEvents<'a> {
             buf,
             idx: 0,
             ref_override: None,
+            references: Vec::new(),
+        }
+    }
+
+    /// Create a replay source over `buf` in which event `i` is referenced at `references[i]`.
+    fn with_references(buf: Vec<Ev<'a>>, references: Vec<Location>) -> Self {
+        debug_assert_eq!(buf.len(), references.len());
+        Self {
+            buf,
+            idx: 0,
+            ref_override: None,
+            references,
         }
     }
 
@@ -956,6 +983,7 @@ impl<'a> ReplayEvents<'a> {
             buf,
             idx: 0,
             ref_override: Some(reference),
+            references: Vec::new(),
         }
     }
 
@@ -997,6 +1025,9 @@ impl<'a> Events<'a> for ReplayEvents<'a> {
     fn reference_location(&self) -> Location {
         if let Some(loc) = self.ref_override {
             return loc;
+        }
+        if let Some(loc) = self.references.get(self.idx) {
+            return *loc;
         }
         self.buf
             .get(self.idx)
@@ -2716,7 +2747,7 @@ impl<'de, 'e> de::Deserializer<'de> for YamlDeserializer<'de, 'e> {
             Unit(String, Location),
             Map(String, Location),
             /// Tag selects the variant, scalar value is the newtype payload.
-            TaggedNewtype(String, Location, Vec<Ev<'a>>),
+            TaggedNewtype(String, Location, Vec<Ev<'a>>, Location),
         }
 
         let mut tagged_enum = None;
@@ -2746,6 +2777,7 @@ impl<'de, 'e> de::Deserializer<'de> for YamlDeserializer<'de, 'e> {
                         // deserialization, so that it is interpreted exactly like the payload
                         // in `{ Variant: payload }` (a plain `~` stays null-like, a quoted
                         // scalar stays a string because the style is preserved).
+                        let reference = self.ev.reference_location();
                         let ev = self.ev.next()?.unwrap();
                         let replay = match ev {
                             Ev::Scalar {
@@ -2767,7 +2799,7 @@ impl<'de, 'e> de::Deserializer<'de> for YamlDeserializer<'de, 'e> {
                             other => vec![other],
                         };
                         tagged_enum = None; // prevent mismatch check
-                        Mode::TaggedNewtype(variant_name, tag_loc, replay)
+                        Mode::TaggedNewtype(variant_name, tag_loc, replay, reference)
                     } else {
                         let (value, _tag, loc) = self.take_scalar_event()?;
                         Mode::Unit(value, loc)
@@ -2788,8 +2820,9 @@ impl<'de, 'e> de::Deserializer<'de> for YamlDeserializer<'de, 'e> {
                         // The tag selects the variant and the mapping is its payload:
                         // consume the whole mapping and replay it as an untagged mapping.
                         let start_loc = *location;
-                        let replay_events = take_container_without_tag(self.ev)?;
-                        let replay = Box::new(ReplayEvents::new(replay_events));
+                        let (replay_events, references) = take_container_without_tag(self.ev)?;
+                        let replay =
+                            Box::new(ReplayEvents::with_references(replay_events, references));
                         return visitor.visit_enum(TaggedEA {
                             replay,
                             cfg: self.cfg,
@@ -2836,8 +2869,8 @@ impl<'de, 'e> de::Deserializer<'de> for YamlDeserializer<'de, 'e> {
                 {
                     // Consume the whole sequence and replay it as an untagged sequence
                     let start_loc = *location;
-                    let replay_events = take_container_without_tag(self.ev)?;
-                    let replay = Box::new(ReplayEvents::new(replay_events));
+                    let (replay_events, references) = take_container_without_tag(self.ev)?;
+                    let replay = Box::new(ReplayEvents::with_references(replay_events, references));
                     return visitor.visit_enum(TaggedEA {
                         replay,
                         cfg: self.cfg,
@@ -3133,8 +3166,10 @@ impl<'de, 'e> de::Deserializer<'de> for YamlDeserializer<'de, 'e> {
                 map_mode: true,
                 variant_location,
             },
-            Mode::TaggedNewtype(variant, variant_location, replay_buf) => {
-                let replay = Box::new(ReplayEvents::new(replay_buf));
+            Mode::TaggedNewtype(variant, variant_location, replay_buf, reference) => {
+                // The payload keeps its use-site (the alias token when the tagged scalar
+                // arrived through an alias).
+                let replay = Box::new(ReplayEvents::with_references(replay_buf, vec![reference]));
                 // We need to use a replay source for the payload
                 return visitor.visit_enum(TaggedEA {
                     replay,
